@@ -332,7 +332,7 @@ func precheck(c *core.Ctx) error {
 		}
 		var rows []string
 		for i := len(tokOrder) - 1; i >= 0; i-- {
-			r := inRow{ID: i + 1, Key: key{P: tokOrder[i]}, F: "0"}
+			r := inRow{ID: i + 1, Key: key{P: tokOrder[i]}, F: "{a:0}"}
 			rows = append(rows, r.zson(false))
 		}
 		src, err := sourceOf(zctx, [][]string{rows})
